@@ -585,6 +585,48 @@ SOutcome(r) ==
     ELSE POutcome("", StrV(r.s), r.log)
 
 -----------------------------------------------------------------------------
+(* Go-side marshalling (host API: Value.MarshalJSON, Object.MarshalJSON,     *)
+(* encoding/json over a Go structure that holds an otto Value).  A Value in  *)
+(* a Go structure is a JSON *element*: the text is the text 15.12.3 gives    *)
+(* for the value (toJSON called with the key "", wrapper objects unboxed,    *)
+(* non-finite numbers null ...), and `null` where 15.12.3 yields undefined   *)
+(* (what JA does for an element, 15.12.3 JA step 8.b, and what the           *)
+(* implementation documents for the undefined Value).  An exception of the   *)
+(* serialisation comes back as a Go error: thr / tv as for Stringify.        *)
+(* mode: how the Value reaches encoding/json -                               *)
+(*   "value"   v.MarshalJSON()             "object"  v.Object().MarshalJSON()*)
+(*   "marshal" json.Marshal(v)             "pointer" json.Marshal(&v)        *)
+(*   "map"     json.Marshal(map[string]interface{}{"k": v})                  *)
+(*   "slice"   json.Marshal([]otto.Value{v})                                 *)
+(*   "struct"  json.Marshal(struct{A otto.Value `json:"a"`; B int `json:"b"`}{v, 1}) *)
+(*   "nested"  json.Marshal(map[string]interface{}{"m": []interface{}{struct{V interface{}}{v}, nil}}) *)
+(*   "export"  x := v.Export(); json.Marshal(x)   (the text is judged modulo *)
+(*             member order: a Go map has none)                              *)
+GoDirectModes == {"value", "object"}           \* the text is handed out as it is
+GoModes == {"value", "object", "marshal", "pointer", "map", "slice", "struct", "nested", "export"}
+GoWrap(mode, t) ==
+    CASE mode = "map" -> <<123, 34, 107, 34, 58>> \o t \o <<125>>                                   \* {"k":T}
+      [] mode = "slice" -> <<91>> \o t \o <<93>>                                                     \* [T]
+      [] mode = "struct" -> <<123, 34, 97, 34, 58>> \o t \o <<44, 34, 98, 34, 58, 49, 125>>          \* {"a":T,"b":1}
+      [] mode = "nested" -> <<123, 34, 109, 34, 58, 91, 123, 34, 86, 34, 58>> \o t \o <<125, 44>> \o S_lit_null \o <<93, 125>>   \* {"m":[{"V":T},null]}
+      [] OTHER -> t
+GoAbsent == [t |-> "absent"]
+GoMarshal(v, mode) ==
+    LET r == Stringify(v, [k |-> "none"], GoAbsent)
+    IN  IF r.thr # "" THEN r
+        ELSE IF r.undef THEN
+            (* 15.12.3 yields undefined: the undefined value, a function, an object whose toJSON returns either *)
+            IF v.t # "undef" /\ D("D11_gomarshal_undefined_text") THEN
+                 (* Object.MarshalJSON hands out ToString(undefined); encoding/json refuses that text *)
+                 (IF mode \in GoDirectModes THEN SOk(S_undefined, r.log) ELSE SThrow("GoInvalidJSON", Undef, r.log))
+            ELSE SOk(GoWrap(mode, S_lit_null), r.log)
+        ELSE SOk(GoWrap(mode, r.s), r.log)
+(* JSON has no text for NaN and the infinities.  15.12.3 writes null for them; for a PRIMITIVE number Value handed to   *)
+(* Go, failing loudly with encoding/json's UnsupportedValueError is as good an answer (no property prefers one): both  *)
+(* are accepted (C11.tla adds this outcome to the acceptable set; it is a choice left open, not a deviation).           *)
+GoMarshalNonFiniteAlt(v) == IF v.t = "num" /\ ~IsFinite(v.n) THEN {SThrow("GoUnsupportedValue", Undef, <<>>)} ELSE {}
+
+-----------------------------------------------------------------------------
 (* "The same JSON text up to the spelling of string and number tokens":      *)
 (* every JSONString token is replaced by Quote of the string it denotes and  *)
 (* every JSONNumber token by ToString of the number it denotes; everything   *)
